@@ -10,7 +10,7 @@
 
 use std::collections::HashSet;
 use std::io::Write;
-use std::sync::{Arc, Mutex, OnceLock, RwLock};
+use std::sync::{Arc, Mutex, RwLock};
 use std::sync::atomic::{AtomicU64, AtomicUsize, Ordering};
 
 
@@ -96,8 +96,29 @@ struct KillConfig {
     log: Option<String>,
 }
 
-static KILL_CONFIG: OnceLock<KillConfig> = OnceLock::new();
+static KILL_CONFIG: Mutex<Option<Arc<KillConfig>>> = Mutex::new(None);
 static KILL_COUNTER: AtomicUsize = AtomicUsize::new(0);
+
+type KillObserver = Arc<dyn Fn(&str) + Send + Sync>;
+static KILL_OBSERVER: RwLock<Option<KillObserver>> = RwLock::new(None);
+
+/// Installs a function called at every kill point, before anything else.
+///
+/// What a process leaves behind when it is killed at a kill point is what
+/// the file system shows at that moment; an observer can record just that
+/// for every kill point of one uninterrupted run.
+pub fn set_kill_observer(observer: Option<KillObserver>) {
+    *KILL_OBSERVER.write().unwrap() = observer;
+}
+
+/// Sets the kill configuration explicitly and restarts the numbering.
+///
+/// For harnesses that fork: the child of a process that has already passed
+/// kill points chooses its own kill point this way.
+pub fn set_kill_config(at: Option<usize>, log: Option<String>) {
+    *KILL_CONFIG.lock().unwrap() = Some(Arc::new(KillConfig { at, log }));
+    KILL_COUNTER.store(0, Ordering::SeqCst);
+}
 
 /// A numbered kill point.
 ///
@@ -115,10 +136,17 @@ pub fn kill_point(name: &str) {
 /// be interrupted from the outside, such as a file that has been truncated
 /// but not yet written by `fs::write`.
 pub fn kill_point_with(name: &str, prepare: impl FnOnce()) {
-    let config = KILL_CONFIG.get_or_init(|| KillConfig {
-        at: std::env::var("VERIF_KILL_AT").ok().and_then(|s| s.parse().ok()),
-        log: std::env::var("VERIF_KILL_LOG").ok(),
-    });
+    let observer = KILL_OBSERVER.read().unwrap().clone();
+    if let Some(observer) = observer {
+        observer(name);
+    }
+    let config = {
+        let mut guard = KILL_CONFIG.lock().unwrap();
+        guard.get_or_insert_with(|| Arc::new(KillConfig {
+            at: std::env::var("VERIF_KILL_AT").ok().and_then(|s| s.parse().ok()),
+            log: std::env::var("VERIF_KILL_LOG").ok(),
+        })).clone()
+    };
     if config.at.is_none() && config.log.is_none() {
         return
     }
